@@ -1110,6 +1110,14 @@ private:
         generateMaskKey(frame.maskKey);
         auto wire = frame.serialize(true);
         auto shared = std::make_shared<std::vector<std::uint8_t>>(std::move(wire));
+        // Same discipline as sendClose(): the flag is set and the CLOSE frame is
+        // handed over under _sendMutex, so a sendText/sendBinary that snapshotted
+        // the transport before the teardown above either completes its hand-over
+        // BEFORE this frame or sees _closeSent and drops (RFC 6455 5.5.1: no data
+        // frame after a CLOSE frame). _transportMutex is NOT held here, so the
+        // lock order _sendMutex -> _transportMutex of the send paths is respected.
+        std::lock_guard<std::mutex> sendLock(_sendMutex);
+        _closeSent = true;
         t->sendAsync(sid, shared->data(), shared->size(),
                      [shared](SessionId, const SendResult&) {});
       }
